@@ -534,6 +534,11 @@ def complex_1d(chk, drv):
         u = ur + 1j * ui
         case = dict(sp.desc(), data='complex-' + dk, re=[float(x) for x in ur], im=[float(x) for x in ui])
         try:
+            if it % 2 == 0:
+                # as in the driver: a real interpolator (advection, quadrature weights) exists on the same BSplines object before the
+                # complex one (quasi-neutrality solver) is built
+                real_interpolant(sp, ur, float)
+                case['real_interpolator_built_first'] = True
             itp, spl = real_interpolant(sp, u, complex)
         except Exception as e:  # noqa: BLE001
             chk.fail('C08:complex-raises', 'complex interpolation raised %s: %s' % (type(e).__name__, e), case)
@@ -824,6 +829,33 @@ def reuse_sequences(chk):
         chk.count('re-use sequences 2-D')
 
 
+def mixed_dtypes(chk):
+    """the receiving spline need not have the interpolator's dtype: a real interpolator may fill a complex spline (the result is the
+    real interpolant, imaginary part zero)"""
+    from pygyro.splines.splines import Spline1D
+    from pygyro.splines.spline_interpolators import SplineInterpolator1D
+    rng = chk.rng
+    for it in range(chk.n(16, 160)):
+        sp = gen_space(rng, per=(rng.random() < 0.3), maxcells=8)
+        u = gen_data(rng, sp.nb, 'normal')
+        xs = np.asarray(sp.basis.greville, dtype=float)
+        case = dict(sp.desc(), data=[float(x) for x in u], interpolator='float', spline='complex')
+        try:
+            itp = SplineInterpolator1D(sp.basis)
+            spl = Spline1D(sp.basis, complex)
+            spl.coeffs[:] = 3.0 - 2.0j          # previous content
+            itp.compute_interpolant(u, spl)
+            vals = np.array([complex(spl.eval(float(x))) for x in xs])
+        except Exception as e:  # noqa: BLE001
+            chk.fail('C08:mixed-dtype-raises', 'real interpolator into a complex spline raised %s: %s' % (type(e).__name__, e), case)
+            continue
+        if not np.all(np.abs(vals - u) <= 1e-9 * max(1.0, float(np.abs(u).max())) * sp.nb):
+            chk.fail('C08:mixed-dtype', 'a real interpolator filling a complex spline: the interpolant does not take its data', case,
+                     expected=[float(x) for x in u], actual=[complex(v) for v in vals])
+        chk.case(('mixed', it), nontrivial=True)
+        chk.count('mixed dtype cases')
+
+
 def run(chk):
     common.use_repo(sim_mpi=False)
     chk.rule = ('spaces: degree 1-5, clamped/periodic, uniform (cubic fast path and general path), dyadic non-uniform, random '
@@ -840,6 +872,7 @@ def run(chk):
         polynomials(chk, drv)
         interp_2d(chk, drv)
         reuse_sequences(chk)
+        mixed_dtypes(chk)
     finally:
         drv.close()
     chk.assumptions = [
